@@ -482,7 +482,7 @@ def explore(ctx):
     cases = []
     for n in reversed(big_n):
         if q and n == 60:                  # quick: the three non-trivial dense bases, strongest perturbations
-            bases, perts, conts = ("rotation", "dft", "crot"), ("0", "uc5", "ad5"), ["list"]
+            bases, perts, conts = ("rotation", "dft", "crot"), ("0", "uc5", "ad5"), ["ndarray"]
         else:
             bases, perts, conts = R.BASES, R.PERTS, pool_conts
         for base in bases:
@@ -641,4 +641,14 @@ def selftest():
         need([(q, [(i, f, c, list(vv)) for i, f, c, vv in ms]) for q, ms in qp] ==
              [(q, [(i, f, c, list(vv)) for i, f, c, vv in ms]) for q, ms in back], f"synthetic {v}: round trip")
     need(any(x[1] < 0 for _, ms in R.synthetic_qpoints(2, 6, "matdyn") for x in ms), "negative frequencies present")
+    for v in R.LOAD_VARIANTS:      # both signs occur in each of the six number columns of the vector lines
+        for npm in (3, 6, 60):
+            cols = [set() for _ in range(6)]
+            for _, ms in R.synthetic_qpoints(1, npm, v):
+                for x in ms:
+                    for a in range(0, npm, 3):
+                        for c in range(3):
+                            cols[2 * c].add(x[3][a + c].real < 0)
+                            cols[2 * c + 1].add(x[3][a + c].imag < 0)
+            need(all(len(c) == 2 for c in cols), f"synthetic {v} np={npm}: a column has one sign only")
     return ok
